@@ -208,6 +208,76 @@ def plain_array(shape):
     return {"x": _x(), "shape": list(shape), "dims": [{"k": "set", "labels": 0, "idx": None} for _ in shape]}
 
 
+def fit(r):
+    """provider arrays take the extent of the vector they provide (in place): the ticks a linked descriptor must
+    present are a key of the descriptor, the provider's shape follows them"""
+    for b in r["blocks"]:
+        for a in b["arrays"]:
+            for d in a["dims"]:
+                ln = d.get("link")
+                if ln and isinstance(ln.get("arr"), int):
+                    b["arrays"][ln["arr"]]["shape"][ln["index"].index(-1)] = len(d["ticks"])
+    return r
+
+
+def new_provider(rng, b, n, how="array"):
+    """appends a provider array holding a vector of n entries (a 1-d array, or one row / column / fibre of a 2-d or
+    3-d array) and returns the link"""
+    rank = 1 if how == "vector" else (rng.choice([2, 3]) if how == "row" else rng.choice([1, 1, 2, 3]))
+    ax = rng.randrange(rank)
+    shape = [n if k == ax else rng.choice([1, 2, 3]) for k in range(rank)]
+    b["arrays"].append(plain_array(shape))
+    return {"arr": len(b["arrays"]) - 1, "index": [(-1 if k == ax else rng.randrange(shape[k])) for k in range(rank)]}
+
+
+def has_self_link(a):
+    return any(d.get("link", {}).get("arr") == "self" for d in a["dims"])
+
+
+def link_dims(rng, b, p=None):
+    """some range descriptors of the block take their ticks (and unit) through a LINK instead of holding them: one
+    vector of another DataArray ([-1], or a row / column of an n-d array), one vector of the array they describe, or
+    a DataFrame column.  `ticks` / `unit` stay keys of the descriptor (what it must present); build() stores them in
+    the provider.  Every link has a provider of its own; at most one self link per array"""
+    p = rng.choice([0.0, 0.3, 0.6]) if p is None else p
+    for a in list(b["arrays"]):
+        for di, d in enumerate(a["dims"]):
+            if d["k"] != "range" or "link" in d or di >= len(a["shape"]) or rng.random() >= p:
+                continue
+            n = len(d["ticks"])
+            how = rng.choice(["array", "array", "self", "frame"])
+            if how == "self" and not has_self_link(a) and all(s > 0 for s in a["shape"]) and a["shape"][di] == n:
+                axes = [j for j, s in enumerate(a["shape"]) if s == n]
+                ax = di if rng.random() < 0.7 else rng.choice(axes)
+                d["link"] = {"arr": "self",
+                             "index": [(-1 if k == ax else rng.randrange(s)) for k, s in enumerate(a["shape"])]}
+            elif how == "frame" and n > 0:
+                d["link"] = {"frame": rng.choice([0, 1])}
+            else:
+                d["link"] = new_provider(rng, b, n)
+    return b
+
+
+def privatise(b, a, rng=None):
+    """array recipe `a` is a copy about to become an array of its own: its links get providers of their own (a self
+    link that no longer fits the copy's shape becomes a link to a provider)"""
+    rng = rng or random.Random(len(b["arrays"]))
+    for d in a["dims"]:
+        ln = d.get("link")
+        if not ln or "frame" in ln:
+            continue
+        if ln["arr"] == "self":
+            ax = ln["index"].index(-1)
+            if (len(ln["index"]) == len(a["shape"]) and a["shape"][ax] == len(d["ticks"])
+                    and all(k < s for k, s in zip(ln["index"], a["shape"]))):
+                continue
+            d["link"] = new_provider(rng, b, len(d["ticks"]), "vector")
+        else:
+            b["arrays"].append(copy.deepcopy(b["arrays"][ln["arr"]]))
+            b["arrays"][-1]["x"] = _x()
+            d["link"] = {"arr": len(b["arrays"]) - 1, "index": list(ln["index"])}
+
+
 def gen_family(rng, odd=False, rank=None):
     """arrays that can be referenced together: a rank and, per data dimension, a quantity (or none)"""
     rank = rank or rng.choice([1, 1, 2, 2, 3])
@@ -304,8 +374,9 @@ def gen_block(rng, small, odd=False, want=0):
             ext = len(arrays) - 1
         mtags.append({"x": _x(), "pos": pos, "ext": ext, "units": units, "refs": refs,
                       "feats": gen_feats(rng, arrays), "unlink": False})
-    return {"x": _x(), "groups": [{"x": _x()} for _ in range(rng.choice([0, 1, 2]))], "arrays": arrays,
-            "tags": tags, "mtags": mtags, "sources": gen_sources(rng, 2 if small else 3)}
+    return link_dims(rng, {"x": _x(), "groups": [{"x": _x()} for _ in range(rng.choice([0, 1, 2]))],
+                           "arrays": arrays, "tags": tags, "mtags": mtags,
+                           "sources": gen_sources(rng, 2 if small else 3)})
 
 
 def gen_recipe(rng, small=False, odd=False, want=0):
@@ -377,7 +448,8 @@ def gen_unit_sweep(rng, n, odd=False):
                 pos = len(arrays) - 1
             mtags.append({"x": _x(), "pos": pos, "ext": None, "units": [unit], "refs": refs, "feats": [],
                           "unlink": False})
-    blk = {"x": _x(), "groups": [], "arrays": arrays, "tags": tags, "mtags": mtags, "sources": []}
+    blk = link_dims(rng, {"x": _x(), "groups": [], "arrays": arrays, "tags": tags, "mtags": mtags, "sources": []},
+                    rng.choice([0.0, 0.0, 0.3]))
     return decorate(rng, {"epoch0": rng.random() < 0.25, "blocks": [blk], "sections": []}, rng.choice([0.0, 0.3]))
 
 
@@ -437,6 +509,7 @@ def bad_dim_units(rng):
     return [rng.choice(NONSI), SI.compound(rng), rng.choice(NONSI)]
 
 
+RELINK_HOW = ["vector", "row", "frame"]
 REF_UNIT_MODES = ["base", "homograph", "homograph", "prefixhomograph", "power", "drop"]
 
 
@@ -461,6 +534,11 @@ def eligible(r, scope="property", rng=None):
                 p = [bi, ai, di]
                 if d["k"] == "range":
                     inj += [["ticks_count", p, 1], ["ticks_count", p, -1], ["ticks_missing", p]]
+                    # the descriptor is (re)linked to a new provider whose vector has one entry less / as many / one
+                    # more than the data; or to a vector of the array itself that runs along another dimension
+                    inj += [["relink", p, rng.choice(RELINK_HOW), dl] for dl in (-1, 0, 1)]
+                    if len(a["shape"]) > 1:
+                        inj.append(["relink", p, "selfcross", rng.randrange(len(a["shape"]) - 1)])
                     if len(d["ticks"]) >= 2:
                         inj += [["ticks_unsorted", p], ["ticks_equal", p], ["ticks_adj", p, "zeros", 0]]
                         # one adjacent pair (the first, an inner, the last) made equal / swapped
@@ -557,11 +635,37 @@ def apply_inj(r, inj):
                 return None
             a["dims"].pop()
         elif op in ("ticks_count", "ticks_missing", "ticks_unsorted", "ticks_equal", "ticks_adj", "dim_unit",
-                    "interval", "labels_count", "dim_index"):
+                    "interval", "labels_count", "dim_index", "relink"):
             bi, ai, di = inj[1]
             a = r["blocks"][bi]["arrays"][ai]
             d = a["dims"][di]
-            if op == "ticks_count":
+            ln = d.get("link") or {}
+            if op in ("ticks_count", "ticks_missing") and (ln.get("arr") == "self" or "frame" in ln):
+                # the vector of a self link is as long as the array's extent along it; a frame has rows
+                if ln.get("arr") == "self" or op == "ticks_missing":
+                    return None
+            if op == "relink":
+                if d["k"] != "range" or di >= len(a["shape"]):
+                    return None
+                how = inj[2]
+                lrng = random.Random(len(r["blocks"][bi]["arrays"]) * 7 + di)
+                if how == "selfcross":
+                    others = [j for j in range(len(a["shape"])) if j != di]
+                    if not others or ln.get("arr") == "self" or has_self_link(a) or not all(s > 0 for s in a["shape"]):
+                        return None
+                    ax = others[inj[3] % len(others)]
+                    n = a["shape"][ax]
+                    d["link"] = {"arr": "self",
+                                 "index": [(-1 if k == ax else lrng.randrange(s)) for k, s in enumerate(a["shape"])]}
+                else:
+                    n = a["shape"][di] + inj[3]
+                    if n < 1:
+                        return None
+                    d["link"] = {"frame": lrng.choice([0, 1])} if how == "frame" else \
+                        new_provider(lrng, r["blocks"][bi], n, how)
+                if n != len(d["ticks"]):
+                    d["ticks"] = [float(k) + 0.5 for k in range(n)]
+            elif op == "ticks_count":
                 if d["k"] != "range":
                     return None
                 if inj[2] > 0:
@@ -707,6 +811,7 @@ def apply_inj(r, inj):
                     if not a["dims"]:
                         return None
                     a["dims"] = a["dims"][:-1]
+            privatise(b, a)
             b["arrays"].append(a)
             t["refs"] = list(t["refs"])
             t["refs"][k] = len(b["arrays"]) - 1
@@ -756,7 +861,7 @@ def apply_inj(r, inj):
             return None
     except (IndexError, KeyError):
         return None
-    return r
+    return fit(r)
 
 
 def _sections_map(r):
@@ -981,13 +1086,37 @@ def build(ctx, r, tag="c"):
         for i, g in enumerate(b["groups"]):
             reg(blk.create_group(nm(g["x"], "g%d" % i), ty(g["x"], "t.group")), "group", [bi, i], g["x"])
         das = []
+        datas = [np.zeros(tuple(a["shape"])) for a in b["arrays"]]
         for i, a in enumerate(b["arrays"]):
-            da = blk.create_data_array(nm(a["x"], "a%d" % i), ty(a["x"], "t.array"),
-                                       data=np.zeros(tuple(a["shape"])))
+            # the vectors that linked descriptors present as their ticks are data of the provider
+            for d in a["dims"]:
+                ln = d.get("link")
+                if ln and "arr" in ln:
+                    sel = tuple(slice(None) if k == -1 else k for k in ln["index"])
+                    datas[i if ln["arr"] == "self" else ln["arr"]][sel] = d["ticks"]
+        for i, a in enumerate(b["arrays"]):
+            da = blk.create_data_array(nm(a["x"], "a%d" % i), ty(a["x"], "t.array"), data=datas[i])
             das.append(da)
             reg(da, "array", [bi, i], a["x"])
-            for d in a["dims"]:
-                if d["k"] == "range":
+        for i, a in enumerate(b["arrays"]):
+            da = das[i]
+            for di, d in enumerate(a["dims"]):
+                if d["k"] == "range" and d.get("link"):
+                    ln = d["link"]
+                    rd = da.append_range_dimension()
+                    if "frame" in ln:
+                        cols = [("t", nix.DataType.Double), ("n", nix.DataType.Int64)]
+                        rows = [(t, k) for k, t in enumerate(d["ticks"])]
+                        if ln["frame"] == 1:
+                            cols.reverse()
+                            rows = [(k, t) for t, k in rows]
+                        fr = blk.create_data_frame("f%d_%d" % (i, di), "t.frame", col_dict=dict(cols), data=rows)
+                        rd.link_data_frame(fr, ln["frame"])
+                    else:
+                        rd.link_data_array(da if ln["arr"] == "self" else das[ln["arr"]], list(ln["index"]))
+                    if d["unit"] is not None:
+                        rd.unit = d["unit"]
+                elif d["k"] == "range":
                     rd = da.append_range_dimension(ticks=[0.0])
                     rd._h5group.write_data("ticks", list(d["ticks"]), nix.DataType.Double)
                     if not d["ticks"] and "ticks" in rd._h5group.group:
@@ -1339,6 +1468,8 @@ def inj_kind(inj):
         return "%s.%s.%s" % (inj[0], inj[1], inj[-1])
     if inj[0] == "ticks_adj":
         return "%s.%s" % (inj[0], inj[2])
+    if inj[0] == "relink":
+        return "%s.%s%s" % (inj[0], inj[2], "" if inj[2] == "selfcross" else ".%+d" % inj[3])
     return inj[0]
 
 
@@ -1637,6 +1768,8 @@ def _used_arrays(b):
         used.add(t["pos"])
         if t["ext"] is not None:
             used.add(t["ext"])
+    for a in b["arrays"]:
+        used.update(d["link"]["arr"] for d in a["dims"] if isinstance(d.get("link", {}).get("arr"), int))
     return used
 
 
